@@ -196,12 +196,13 @@ static void run_trunc(const Seed & sd, long from, long to, int step_shard, int n
             size_t end_no_pad = sd.lay.container_off[i] + osz;
             uint32_t usz = 0;
             memcpy(&usz, &sd.file[sd.lay.container_off[i] + 24], 4);
-            if (end_with_pad <= (size_t)t) plo += usz;
-            if (end_no_pad <= (size_t)t) phi += usz; else break;
+            /* a container is completely stored when its objectSize bytes are; the alignment bytes behind it are not part of it */
+            (void)end_with_pad;
+            if (end_no_pad <= (size_t)t) { plo += usz; phi += usz; } else break;
         }
         long lo = 0, hi = 0;
         for (auto & o : sd.objs) {
-            if (o.off + o.padded <= plo) lo++;
+            if (o.off + o.size <= plo) lo++;
             if (o.off + o.size <= phi) hi++;
         }
         std::string key_base = hdrkind + "|lv" + std::to_string(sd.level) + "|c" + std::to_string(sd.cont);
